@@ -50,6 +50,25 @@ def c07_jobs(ctx, focus=()):
         t = search.cont_task(obj=r.choice(["sphere", "rastrigin"]), seed=r.choice([0, 42, 7]), dim=3)
         cfg = {"max_cycles": 4, "fitness_error": None}
         jobs.append(({"opt": nm, "cfg": cfg, "task": t}, {"opt": nm, "cfg": cfg, "task": t, "sequence": [{"task": t}]}))
+    # equal tasks are equal tasks: a task OBJECT that was sampled from / optimised on before (state kept on a variable or on the task would escape the seed) against a
+    # freshly built equal one - for every encoding, on optimizer x encoding pairs known to run (expectations.json: c06_int_works) and on continuous tasks
+    from . import census
+    from .expected import load_expectations
+    works = sorted(load_expectations().get("c06_int_works", []))
+    wpairs = [w.split("|") for w in works]
+    wpairs = [w for w in wpairs if w[1] in census.INT_ENCODINGS]
+    per_enc = {}
+    for nm, enc in wpairs: per_enc.setdefault(enc, []).append(nm)
+    for enc in sorted(per_enc):
+        cand = per_enc[enc]
+        for nm in r.sample(cand, min(len(cand), (4 if ctx.quick else 25) * ctx.boost)):
+            t = {"vars": census.INT_ENCODINGS[enc](), "obj": r.choice(["sphere", "linear", "abs"]), "minmax": r.choice(["min", "max"]), "seed": r.choice([0, 42, 7])}
+            cfg = {"max_cycles": 3, "fitness_error": None}
+            jobs.append(({"opt": nm, "cfg": cfg, "task": t}, {"opt": nm, "cfg": cfg, "task": t, "used_task": {"draws": r.randint(1, 5), "runs": r.choice([0, 1])}}))
+    for nm in r.sample(search.all_names(), 6 if ctx.quick else 40):
+        t = search.cont_task(obj="sphere", seed=r.choice([0, 42, 7]), dim=3)
+        cfg = {"max_cycles": 3, "fitness_error": None}
+        jobs.append(({"opt": nm, "cfg": cfg, "task": t}, {"opt": nm, "cfg": cfg, "task": t, "used_task": {"draws": r.randint(1, 5), "runs": 1}}))
     # "in the same or in different processes": two FRESH interpreters with different string-hash seeds (hash-ordered iteration over labels, dict / set order ...),
     # on tasks whose objective works on the decoded solution (string-labelled permutation, as in the library's TSP example) and on ordinary ones
     names = search.all_names()
